@@ -208,6 +208,50 @@ def isosteric_all_case(conv_name):
     return not probs, '; '.join(probs)
 
 
+def custom_vapour_cases():
+    """an adsorbate without a thermodynamic backend (a user-defined vapour that only carries stored properties -- the fall-back route
+    of every adsorbate getter): results do not depend on the pressure unit the isotherm is stored in"""
+    import warnings
+    import pygaps
+    import pygaps.characterisation as c
+    pygaps.logger.disabled = True
+    made = []
+    try:
+        vap = pygaps.Adsorbate('pgv_c15_vapour', store=True, saturation_pressure=12000.0, molar_mass=86.0, liquid_density=0.65, cross_sectional_area=0.4,
+                               gas_density=0.004, liquid_molar_density=0.65 / 86.0, gas_molar_density=0.004 / 86.0, surface_tension=18.0)
+        made.append(vap)
+        rel = numpy.linspace(0.005, 0.7, 40)
+        n_m, cc = 3e-3, 80.0
+        load = n_m * cc * rel / ((1 - rel) * (1 - rel + cc * rel))
+        base = pygaps.PointIsotherm(pressure=list(rel * 12000.0), loading=list(load), material='pgv_c15', adsorbate='pgv_c15_vapour', temperature=298.15,
+                                    pressure_mode='absolute', pressure_unit='Pa', loading_basis='molar', loading_unit='mol', material_basis='mass',
+                                    material_unit='g', temperature_unit='K')
+        entries_ = {'area_BET': lambda i: [c.area_BET(i)[k] for k in ('area', 'c_const', 'n_monolayer')],
+                    'area_langmuir': lambda i: [c.area_langmuir(i, p_limits=(0.051, 0.61))[k] for k in ('area', 'n_monolayer')],
+                    'dr_plot': lambda i: [c.dr_plot(i, p_limits=(0.004, 0.21))[k] for k in ('pore_volume', 'adsorption_potential')],
+                    'relative_pressures': lambda i: list(i.pressure(pressure_mode='relative'))}
+        with warnings.catch_warnings():
+            warnings.simplefilter('ignore')
+            ref = {k: _flat(f(_copy(base))) for k, f in entries_.items()}
+            for unit in ('kPa', 'bar', 'torr', 'mbar'):
+                for k, f in entries_.items():
+                    try:
+                        iso = _copy(base)
+                        iso.convert_pressure(unit_to=unit)
+                        got = _flat(f(iso))
+                        ok = len(got) == len(ref[k]) and numpy.allclose(got, ref[k], rtol=1e-6)
+                        detail = '' if ok else f"stored in Pa {ref[k][:3]}, stored in {unit} {got[:3]}"
+                    except Exception as exc:
+                        ok, detail = False, f"{type(exc).__name__}: {exc}"[:160]
+                    yield {'name': f"adsorbate_without_backend|{k}|p={unit}", 'ok': bool(ok), 'detail': detail}
+    finally:
+        for a in made:
+            try:
+                pygaps.ADSORBATE_LIST.remove(a)
+            except ValueError:
+                pass
+
+
 ISOSTERIC_ALL = ('l=mol', 'l=mass:mg', 'l=cm3(STP)', 'p=kPa,l=mass:g', 'l=volume_gas:cm3', 'l=volume_liquid:cm3', 'scale=0.001', 'scale=250.0', 'T=degC', 'json')
 
 
@@ -257,6 +301,7 @@ def run_chunk(chunk):
 
 def invariance_cases(seed, thorough=False):
     from pgv import par
+    yield from custom_vapour_cases()
     cases = all_cases(thorough)
     res, crashes = par.pmap(run_chunk, par.chunks(cases, 32))
     for r in res:
@@ -267,6 +312,10 @@ def invariance_cases(seed, thorough=False):
 
 @replayer('c15.case')
 def _case(spec, model):
+    if spec['name'].startswith('adsorbate_without_backend'):
+        for r in custom_vapour_cases():
+            if r['name'] == spec['name']:
+                return {'confirmed': not r['ok'], 'observed': r['detail'], 'expected': 'the same result whatever pressure unit the isotherm is stored in'}
     for s in all_cases(True):
         r = None
         nm = None
